@@ -974,6 +974,24 @@ def check_property(pid, tier="quick", seed=0):
             lines_out.append("VIOLATION property=%s replay=%s%s" % (pid, rp, "" if wit else " no-failing-input-found"))
     elif undecided:
         rc = 2
+        # the deductive check cannot decide this tree (the code left the verified subset, an anchor moved, a solver limit):
+        # that is never an alarm by itself.  A concrete failing input found by the bounded replay search on the REAL crates is one.
+        wit = None
+        try:
+            from vxreplay import search_witness
+            wit = search_witness(pid, None, tier)
+        except Exception as e:
+            undecided.append("replay search failed: %s" % e)
+        if wit is not None:
+            rc = 1
+            violations += 1
+            os.makedirs(REPLAYS, exist_ok=True)
+            rp = os.path.join(REPLAYS, "%s-undecided-%s.json" % (pid, sha(json.dumps(wit, sort_keys=True))))
+            json.dump({"property": pid, "obligation": "(undecided units; violation established by replay only)", "unit": None,
+                       "verifier_output": undecided, "witness": wit, "replay_cmd": "./vx replay %s" % rp,
+                       "note": "the verifier could not decide this tree; the bounded replay search found a failing input on the real code"}, open(rp, "w"), indent=1)
+            lines_out.append("VIOLATION property=%s replay=%s" % (pid, rp))
+            failed.append(("replay", "replay.witness", [{"rendered": wit.get("observed", "")}]))
     # evidence
     ev = {
         "property_id": pid,
